@@ -1,1 +1,97 @@
-//! Hooks for property C23.
+//! Hooks for property C23: drive the real action-header transitions and the real
+//! `Close::preprocess` decision (owner / keeper / stranger) over in-memory accounts.
+use anchor_lang::prelude::*;
+
+use crate::{
+    events::EventEmitter,
+    states::{common::action::ActionHeader, Deposit, Store, StoreWalletSigner},
+    utils::internal::{self, Authentication},
+};
+
+/// `ActionHeader::completed` (crate-private).
+pub fn header_completed(header: &mut ActionHeader) -> Result<()> {
+    header.completed()
+}
+
+/// `ActionHeader::cancelled` (crate-private).
+pub fn header_cancelled(header: &mut ActionHeader) -> Result<()> {
+    header.cancelled()
+}
+
+/// Mutable access to a deposit's header (crate-private field).
+pub fn deposit_header_mut(deposit: &mut Deposit) -> &mut ActionHeader {
+    &mut deposit.header
+}
+
+/// Minimal accounts context implementing the real `Close` trait, so that its provided
+/// `preprocess` method (the close permission policy) can be evaluated natively.
+pub struct VerifClose<'info> {
+    pub authority: Signer<'info>,
+    pub store: AccountLoader<'info, Store>,
+    pub action: AccountLoader<'info, Deposit>,
+    pub keeper_role: String,
+    pub skip_completion_check: bool,
+}
+
+/// Bumps of [`VerifClose`].
+#[derive(Debug)]
+pub struct VerifCloseBumps;
+
+impl<'info> anchor_lang::Bumps for VerifClose<'info> {
+    type Bumps = VerifCloseBumps;
+}
+
+impl<'info> Authentication<'info> for VerifClose<'info> {
+    fn authority(&self) -> &Signer<'info> {
+        &self.authority
+    }
+
+    fn store(&self) -> &AccountLoader<'info, Store> {
+        &self.store
+    }
+}
+
+impl<'info> internal::Close<'info, Deposit> for VerifClose<'info> {
+    fn expected_keeper_role(&self) -> &str {
+        &self.keeper_role
+    }
+
+    fn rent_receiver(&self) -> AccountInfo<'info> {
+        self.authority.to_account_info()
+    }
+
+    fn event_authority(&self, _bumps: &Self::Bumps) -> (AccountInfo<'info>, u8) {
+        (self.authority.to_account_info(), 0)
+    }
+
+    fn store_wallet_bump(&self, _bumps: &Self::Bumps) -> u8 {
+        0
+    }
+
+    fn skip_completion_check_for_keeper(&self) -> Result<bool> {
+        Ok(self.skip_completion_check)
+    }
+
+    fn validate(&self) -> Result<()> {
+        Ok(())
+    }
+
+    fn process(
+        &self,
+        _is_caller_owner: bool,
+        _store_wallet_signer: &StoreWalletSigner,
+        _event_emitter: &EventEmitter<'_, 'info>,
+    ) -> Result<internal::Success> {
+        Ok(true)
+    }
+
+    fn action(&self) -> &AccountLoader<'info, Deposit> {
+        &self.action
+    }
+}
+
+/// Evaluate the real `Close::preprocess`: `Ok(true)` = caller is the owner,
+/// `Ok(false)` = keeper allowed to close, `Err` = rejected.
+pub fn close_preprocess<'info>(ctx: &VerifClose<'info>) -> Result<bool> {
+    internal::Close::preprocess(ctx)
+}
